@@ -343,6 +343,12 @@ where
             let (mut res_dft_tmp, scratch_2) = scratch_1.take_vec_znx_dft(self, cols_out, pmat.size());
             res_dft_tmp.zero();
 
+            // The first product (di = 0) only writes the limbs it keeps: clear the ones it drops,
+            // the following digits accumulate into them.
+            if dsize > 2 {
+                res.zero();
+            }
+
             for di in 0..dsize {
                 // Sets ai_dft size according to the current digit (if dsize does not divides a_size),
                 // bounded by the number of rows (digits) in the prepared matrix.
